@@ -39,7 +39,7 @@ pub open spec fn kind_dispatched(obj: SchemaObject, k: SchemaKind) -> bool {
     match (obj.instance_type, obj.subschemas) {
         (Some(SingleOrVec::Single(t)), None) => match *t {
             InstanceType::Null => k matches SchemaKind::Type(Type::String(st)) && st.enumeration@.len() == 1 && st.enumeration@[0] is None
-                && st.format is None && st.pattern is None && st.min_length is None && st.max_length is None,
+                && st.format is Empty && st.pattern is None && st.min_length is None && st.max_length is None,
             InstanceType::Boolean => k matches SchemaKind::Type(Type::Boolean(bt)) && (match obj.enum_values {
                 Some(vs) => bt.enumeration@.len() == vs@.len()
                     && forall|i: int| 0 <= i < vs@.len() ==> (#[trigger] bt.enumeration@[i]) == (match vs@[i] { Value::Bool(b) => Some(b), _ => None::<bool> }),
